@@ -49,6 +49,14 @@ FIRST_STATEMENT = [
     ("return-const", "export function f (int n) -> float {\n  return 2.5;\n}\n"),
     ("nested-while", "export function f (int n) -> int {\n  while (n > 0) {\n    while (n > 5) {\n      n = n - 5;\n    }\n    n = n - 1;\n  }\n  return n;\n}\n"),
     ("do-continue", "export function f (int n) -> int {\n  do {\n    n = n - 1;\n    if (n == 4) {\n      continue;\n    }\n    n = n - 1;\n  }\n  while (n > 0)\n  return n;\n}\n"),
+    # constants of equal value and different type in one function (uint constants arise from ++/-- on uint variables)
+    ("uint-int-constants", "export function f (int n) -> int {\n  uint c = 0;\n  int i = 0;\n  while (i < n) {\n    ++i;\n    ++c;\n  }\n  return i + c;\n}\n"),
+    ("uint-int-float-constants", "export function f (int n) -> float {\n  uint c = 1;\n  int i = 1;\n  float x = 1.0;\n  c--;\n  i--;\n  x = x + 1;\n  for (int k = 0; k < n; k++) {\n    c++;\n    x = x * 1.0 + 1;\n  }\n  return x + i + c;\n}\n"),
+    ("int-float-same-value", "export function f (int n) -> float {\n  float a = 2;\n  int b = 2;\n  return n * 2 + 2.0 * a + b;\n}\n"),
+    # instructions whose optional parts are absent: a return without value, a branch without predicate
+    ("bare-return", "int g;\nexport function f (int n) -> void {\n  if (n < 1) {\n    return;\n  }\n  g = n;\n}\n"),
+    ("bare-return-in-loop", "int g;\nexport function f (int n) -> void {\n  while (n > 0) {\n    g = g + n;\n    if (g > 8) {\n      return;\n    }\n    n = n - 1;\n  }\n  g = 0 - g;\n}\n"),
+    ("for-without-test", "export function f (int n) -> int {\n  for (int i = 0; ; ++i) {\n    if (i > n) {\n      return i;\n    }\n  }\n  return 0;\n}\n"),
     ("void-while", "int g;\nexport function f (int n) -> void {\n  while (n > 0) {\n    g = g + n;\n    n = n - 1;\n  }\n}\n"),
 ]
 
